@@ -3,7 +3,7 @@
 Independently confirms a seeded change delivered in <dir>/SEEDED (patch.diff, demo file(s), meta.json):
  fresh worktree of /repo HEAD: demo passes without the patch, fails with it, baseline tests of the given packages pass with it;
  then runs the named checks (quick) against the patched tree. Stores everything under /verif/seeded/<seed-id>/ with the results in meta.json."""
-import sys, os, json, subprocess, shutil, tempfile, glob
+import sys, os, json, subprocess, shutil, tempfile, glob, re
 src, sid, cids = sys.argv[1], sys.argv[2], sys.argv[3].split(",")
 pkgs = sys.argv[4:]
 S = os.path.join(src, "SEEDED")
@@ -23,8 +23,9 @@ try:
         shutil.copy(os.path.join(src, d), os.path.join(wt, d))
     shutil.copytree(S, os.path.join(wt, "SEEDED"), dirs_exist_ok=True)
     cmd = meta.get("demo_cmd")
+    cmd = re.sub(r"\s{2,}\((with|after) [^)]*\)\s*$", "", cmd)   # trailing prose remark
     def run_demo():
-        r = subprocess.run(cmd, shell=True, cwd=wt, env=env, stdout=subprocess.PIPE, stderr=subprocess.STDOUT, text=True)
+        r = subprocess.run(cmd, shell=True, executable="/bin/bash", cwd=wt, env=env, stdout=subprocess.PIPE, stderr=subprocess.STDOUT, text=True)
         return r.returncode, r.stdout[-1500:]
     rc0, o0 = run_demo()
     res["demo_without_patch"] = "pass" if rc0 == 0 else "FAIL(%d)" % rc0
